@@ -176,3 +176,201 @@ Proof.
   cbn [valuate_proc pr_txn pr_posting rbind]. rewrite (fold_postings_zero v t _ s Ht). cbn [rbind fst snd].
   rewrite (IH _ Hr). cbn [rbind fst snd]. destruct t; reflexivity.
 Qed.
+
+(* ------------------------------------------------------------ one cell *)
+Section Cell.
+  Variables (v : commodity) (a : account) (c : commodity).
+  Hypothesis Ha : account_ok a = true.
+  Hypothesis HAL : is_AL a = true.
+  Hypothesis Hcv : c <> v.
+
+  (* the abstract per-step error: quantities satisfy Pq, prices Pp, price differences Pd *)
+  Variables (Pq Pp Pd : dec -> Prop) (eps : Q).
+  Hypothesis Pq_nil : Pq dec_nil.
+  Hypothesis Pq_add : forall x y, Pq x -> Pq y -> Pq (add x y).
+  Hypothesis Pd_sub : forall x y, Pp x -> Pp y -> Pd (sub x y).
+  Hypothesis step_booking : forall q p, Pq q -> Pp p -> Qabs (merr q p) <= eps.
+  Hypothesis step_adjust : forall d q, Pd d -> Pq q -> Qabs (merr d q) <= eps.
+  Hypothesis eps_nonneg : 0 <= eps.
+
+  Definition pentry := (str * (account * commodity * dec))%type.
+  Definition ematch (x : pentry) : bool := acc_eqb (fst (fst (snd x))) a && str_eqb (snd (fst (snd x))) c.
+
+  (* the position map: sorted keys, well-formed entries, the cell's quantity satisfies Pq *)
+  Definition good (m : positions) : Prop :=
+    keys_sorted m /\ (forall x, In x m -> entry_ok x) /\ (forall x, In x m -> ematch x = true -> Pq (snd (snd x))).
+
+  Definition posq (m : positions) : Q := dvalue (getd m a c).
+
+  Lemma key_match a' c' : account_ok a' = true ->
+    (acc_eqb a' a && str_eqb c' c = true <-> pos_key a' c' = pos_key a c).
+  Proof.
+    intros Ha'. split; intros H.
+    - apply andb_true_iff in H. destruct H as [H1 H2]. apply acc_eqb_name in H1. apply str_eqb_eq in H2.
+      unfold pos_key. rewrite H1, H2. reflexivity.
+    - apply pos_key_inj in H; [|assumption|assumption]. destruct H as [-> ->].
+      rewrite acc_eqb_refl, str_eqb_refl. reflexivity.
+  Qed.
+
+  Lemma getd_key m a1 c1 a2 c2 : pos_key a1 c1 = pos_key a2 c2 -> getd m a1 c1 = getd m a2 c2.
+  Proof. intros H. unfold getd, pos_get. rewrite H. reflexivity. Qed.
+
+  Lemma good_nil : good [].
+  Proof. split; [constructor|]. split; intros x []. Qed.
+
+  Lemma good_add m a' c' q :
+    good m -> account_ok a' = true -> is_AL a' = true ->
+    (acc_eqb a' a && str_eqb c' c = true -> Pq q) -> good (pos_add m a' c' q).
+  Proof.
+    intros (Hs & He & Hp) Ha' HAL' Hq. unfold pos_add. split; [apply sm_put_sorted; exact Hs|]. split.
+    - intros x Hin. apply sm_put_in in Hin. destruct Hin as [->|Hin]; [|apply He; exact Hin].
+      unfold entry_ok. cbn [fst snd]. auto.
+    - intros x Hin Hm. apply sm_put_in in Hin. destruct Hin as [->|Hin]; [|apply Hp; assumption].
+      unfold ematch in Hm. cbn [fst snd] in Hm |- *. apply Pq_add; [|apply Hq; exact Hm].
+      unfold pos_get. destruct (sm_get m (pos_key a' c')) as [[[a2 c2] q2]|] eqn:G; [|exact Pq_nil].
+      apply sm_get_some_in in G. pose proof (He _ G) as (K & Ha2 & _). cbn [fst snd] in K, Ha2.
+      apply pos_key_inj in K; [|assumption|assumption]. destruct K as [<- <-].
+      apply (Hp _ G). exact Hm.
+  Qed.
+
+  Lemma posq_add m a' c' q : account_ok a' = true ->
+    posq (pos_add m a' c' q) == posq m + (if acc_eqb a' a && str_eqb c' c then dvalue q else 0).
+  Proof.
+    intros Ha'. unfold posq, pos_add. destruct (acc_eqb a' a && str_eqb c' c) eqn:E.
+    - apply (key_match a' c' Ha') in E.
+      rewrite (getd_key _ a c a' c' (eq_sym E)), getd_put_same, dvalue_add.
+      rewrite (getd_key m a c a' c' (eq_sym E)). reflexivity.
+    - rewrite getd_put_other; [ring|]. intros K. symmetry in K. apply (key_match a' c' Ha') in K. congruence.
+  Qed.
+
+  (* ---------------------------------------------------------- the Posting callback *)
+  Definition pin (p : posting) : Prop := posting_in_ok p /\ (cellb a c p = true -> Pq (p_qty p)).
+
+  Definition dq (p : posting) : Q := if cellb a c p then dvalue (p_qty p) else 0.
+  Definition dv (p : posting) : Q := if cellb a c p then dvalue (p_val p) else 0.
+
+  Lemma cell_not_AL p : account_ok (p_acc p) = true -> is_AL (p_acc p) = false -> cellb a c p = false.
+  Proof.
+    intros Hok Hn. unfold cellb. destruct (acc_eqb (p_acc p) a) eqn:E; [|reflexivity].
+    apply acc_eqb_name in E. apply acc_name_inj in E; [|assumption|assumption]. congruence.
+  Qed.
+
+  Lemma cell_not_v p : str_eqb v (p_com p) = true -> cellb a c p = false.
+  Proof.
+    intros Hv. unfold cellb. destruct (str_eqb (p_com p) c) eqn:E; [|apply andb_false_r].
+    apply str_eqb_eq in Hv. apply str_eqb_eq in E. congruence.
+  Qed.
+
+  Lemma upd_state_cell s p :
+    pin p -> good (v_qty s) ->
+    let s1 := if is_AL (p_acc p)
+              then mkVal (v_prev s) (v_cur s) (pos_add (v_qty s) (p_acc p) (p_com p) (p_qty p)) else s in
+    v_prev s1 = v_prev s /\ v_cur s1 = v_cur s /\ good (v_qty s1) /\
+    posq (v_qty s1) == posq (v_qty s) + dq p.
+  Proof.
+    intros [[Hok Hz] HPq] Hg. destruct (is_AL (p_acc p)) eqn:EAL; cbn zeta; cbn [v_prev v_cur v_qty].
+    - split; [reflexivity|]. split; [reflexivity|]. split.
+      + apply good_add; assumption.
+      + apply posq_add. exact Hok.
+    - split; [reflexivity|]. split; [reflexivity|]. split; [exact Hg|].
+      unfold dq. rewrite (cell_not_AL p Hok EAL). ring.
+  Qed.
+
+  Lemma val_posting_cell s t p s' p' :
+    val_posting v s t p = ROk (s', p') ->
+    pin p -> good (v_qty s) -> (forall pr, np_price_opt (v_cur s) c = Some pr -> Pp pr) ->
+    v_prev s' = v_prev s /\ v_cur s' = v_cur s /\ good (v_qty s') /\
+    cellb a c p' = cellb a c p /\
+    posq (v_qty s') == posq (v_qty s) + dq p /\
+    Qabs (dv p' - dq p * price_value (v_cur s) c) <= inject_Z (if cellb a c p then 1 else 0) * eps.
+  Proof.
+    intros H Hpin Hg HPp. pose proof (upd_state_cell s p Hpin Hg) as Hupd. cbn zeta in Hupd.
+    destruct Hpin as [[Hok Hz] HPq].
+    unfold val_posting in H. destruct (is_zero (p_qty p)) eqn:Ez.
+    - injection H as <- <-. split; [reflexivity|]. split; [reflexivity|]. split; [exact Hg|]. split; [reflexivity|].
+      unfold dq, dv. destruct (cellb a c p) eqn:Ec.
+      + apply is_zero_value in Ez. split; [rewrite Ez; ring|].
+        apply bound_one. rewrite (Hz eq_refl), Ez.
+        setoid_replace (0 - 0 * price_value (v_cur s) c) with 0 by ring. exact eps_nonneg.
+      + split; [ring|]. apply bound_zero. ring.
+    - set (s1 := if is_AL (p_acc p)
+                 then mkVal (v_prev s) (v_cur s) (pos_add (v_qty s) (p_acc p) (p_com p) (p_qty p)) else s) in *.
+      destruct Hupd as (U1 & U2 & U3 & U4).
+      destruct (str_eqb v (p_com p)) eqn:Ev.
+      + injection H as <- <-. split; [exact U1|]. split; [exact U2|]. split; [exact U3|]. split; [reflexivity|].
+        split; [exact U4|]. unfold dq, dv. change (cellb a c (mkPosting (p_acc p) (p_other p) (p_com p) (p_qty p) (p_qty p)))
+          with (cellb a c p). rewrite (cell_not_v p Ev). apply bound_zero. ring.
+      + destruct (v_cur s) as [n|] eqn:Ecur; [|discriminate]. unfold np_valuate in H.
+        destruct (sm_get n (p_com p)) as [pr|] eqn:Ep; [|discriminate].
+        injection H as <- <-. split; [exact U1|]. split; [exact U2|]. split; [exact U3|]. split; [reflexivity|].
+        split; [exact U4|]. unfold dq, dv.
+        change (cellb a c (mkPosting (p_acc p) (p_other p) (p_com p) (p_qty p) (multiply (p_qty p) pr)))
+          with (cellb a c p). cbn [p_val].
+        destruct (cellb a c p) eqn:Ec; [|apply bound_zero; ring].
+        assert (Hc : p_com p = c).
+        { unfold cellb in Ec. apply andb_true_iff in Ec. destruct Ec as [_ Ec]. apply str_eqb_eq in Ec. exact Ec. }
+        assert (Hpr : np_price_opt (Some n) c = Some pr) by (cbn [np_price_opt]; unfold np_price; rewrite <- Hc; exact Ep).
+        unfold price_value. rewrite Hpr. apply bound_one.
+        apply (step_booking _ _ (HPq eq_refl) (HPp _ Hpr)).
+  Qed.
+
+  Definition cur_ok (n : option nprices) : Prop := forall pr, np_price_opt n c = Some pr -> Pp pr.
+
+  Lemma fold_postings_cell t ps : forall s s' ps',
+    fold_postings (val_posting v) t s ps = ROk (s', ps') ->
+    Forall pin ps -> good (v_qty s) -> cur_ok (v_cur s) ->
+    v_prev s' = v_prev s /\ v_cur s' = v_cur s /\ good (v_qty s') /\
+    cell_count a c ps' = cell_count a c ps /\
+    posq (v_qty s') == posq (v_qty s) + cell_qty a c ps /\
+    Qabs (cell_value a c ps' - cell_qty a c ps * price_value (v_cur s) c) <= inject_Z (cell_count a c ps) * eps.
+  Proof.
+    induction ps as [|p ps IH]; intros s s' ps' H Hpin Hg Hcur; cbn [fold_postings] in H.
+    - injection H as <- <-. repeat (split; [reflexivity|]). split; [exact Hg|]. split; [reflexivity|].
+      split; [cbn; ring|]. apply bound_zero. cbn. ring.
+    - inversion Hpin as [|? ? Hp Hrest]; subst.
+      destruct (val_posting v s t p) as [[s1 p1]| |] eqn:E1; cbn [rbind fst snd] in H; try discriminate.
+      destruct (fold_postings (val_posting v) t s1 ps) as [[s2 ps2]| |] eqn:E2; cbn [rbind fst snd] in H; try discriminate.
+      injection H as <- <-.
+      destruct (val_posting_cell _ _ _ _ _ E1 Hp Hg Hcur) as (A1 & A2 & A3 & A4 & A5 & A6).
+      assert (Hcur1 : cur_ok (v_cur s1)) by (rewrite A2; exact Hcur).
+      destruct (IH _ _ _ E2 Hrest A3 Hcur1) as (B1 & B2 & B3 & B4 & B5 & B6).
+      split; [congruence|]. split; [congruence|]. split; [exact B3|].
+      split; [cbn [cell_count]; rewrite A4, B4; reflexivity|].
+      split.
+      + rewrite B5, A5, cell_qty_cons. unfold dq. ring.
+      + cbn [cell_count]. eapply bound_add; [exact A6|exact B6|].
+        rewrite cell_value_cons, cell_qty_cons, A2. unfold dv, dq. ring.
+  Qed.
+
+  Definition txn_in (t : txn) : Prop := Forall pin (t_postings t).
+  Definition txns_postings (ts : list txn) : list posting := concat (map t_postings ts).
+
+  Lemma fold_txns_cell ts : forall s s' ts',
+    fold_txns (valuate_proc v) s ts = ROk (s', ts') ->
+    Forall txn_in ts -> good (v_qty s) -> cur_ok (v_cur s) ->
+    v_prev s' = v_prev s /\ v_cur s' = v_cur s /\ good (v_qty s') /\
+    cell_count a c (txns_postings ts') = cell_count a c (txns_postings ts) /\
+    posq (v_qty s') == posq (v_qty s) + cell_qty a c (txns_postings ts) /\
+    Qabs (cell_value a c (txns_postings ts') - cell_qty a c (txns_postings ts) * price_value (v_cur s) c)
+      <= inject_Z (cell_count a c (txns_postings ts)) * eps.
+  Proof.
+    induction ts as [|t ts IH]; intros s s' ts' H Hin Hg Hcur; cbn [fold_txns] in H.
+    - injection H as <- <-. repeat (split; [reflexivity|]). split; [exact Hg|]. split; [reflexivity|].
+      split; [cbn; ring|]. apply bound_zero. cbn. ring.
+    - inversion Hin as [|? ? Ht Hrest]; subst.
+      cbn [valuate_proc pr_txn pr_posting rbind] in H.
+      destruct (fold_postings (val_posting v) t s (t_postings t)) as [[s1 ps1]| |] eqn:E1; cbn [rbind fst snd] in H; try discriminate.
+      destruct (fold_txns (valuate_proc v) s1 ts) as [[s2 ts2]| |] eqn:E2; cbn [rbind fst snd] in H; try discriminate.
+      injection H as <- <-.
+      destruct (fold_postings_cell _ _ _ _ _ E1 Ht Hg Hcur) as (A1 & A2 & A3 & A4 & A5 & A6).
+      assert (Hcur1 : cur_ok (v_cur s1)) by (rewrite A2; exact Hcur).
+      destruct (IH _ _ _ E2 Hrest A3 Hcur1) as (B1 & B2 & B3 & B4 & B5 & B6).
+      unfold txns_postings in *. cbn [map concat t_postings].
+      split; [congruence|]. split; [congruence|]. split; [exact B3|].
+      split; [rewrite !cell_count_app, A4, B4; reflexivity|].
+      split.
+      + rewrite B5, A5, cell_qty_app. ring.
+      + rewrite cell_count_app. eapply bound_add; [exact A6|exact B6|].
+        rewrite cell_value_app, cell_qty_app, A2. ring.
+  Qed.
+End Cell.
